@@ -74,9 +74,9 @@ def finish(pid, tier, obs, floors, t0, extra=None, explanation="", assumptions=N
             continue
         why = next((w for fnq, w in (residue or {}).items() if o.construct == fnq or o.construct.startswith(fnq + "[")
                     or o.construct.startswith(fnq + ".") or o.construct.startswith(fnq + "->")), None)
-        # formula obligations (tiers F / M) compare values computed through the expander, for which the names of inlined
+        # effect obligations (tier E: which stores a function writes, through any helper) and formula obligations (tiers F / M) compare values computed through the expander, for which the names of inlined
         # locals are immaterial: they stand; only shape-based (structural) obligations are withheld
-        if why and getattr(o, "tier", "S") not in ("F", "M") and os.environ.get("SA_WITHHOLD", "1") != "0":
+        if why and getattr(o, "tier", "S") not in ("F", "M", "E") and os.environ.get("SA_WITHHOLD", "1") != "0":
             withheld.append((o, why))
         else:
             unlisted.append(o)
